@@ -34,7 +34,7 @@ REQUIRED_THEOREMS = ['unitmap_lookup', 'unitmap_listed', 'key_assembly_suffix', 
                      'nwu_suffix_span', 'nwu_prefix_span', 'nwu_result_text_is_slice', 'nwu_result_text_is_slice_full',
                      'nwu_relative_number_start', 'extract_then_parse_unit', 'select_no_conflict_identity',
                      'select_results_from_input', 'select_returns_partial', 'select_misaligned_raises',
-                     'nwu_prefix_only_suppressed_witness', 'merged_result_text_is_slice']
+                     'nwu_prefix_only_result', 'nwu_prefix_only_suppressed_witness', 'merged_result_text_is_slice']
 RULE = ('exhaustive over every (culture, model, prefix|suffix, unit, spelling) row of the tables wired into the registered '
         'NumberWithUnit models (first extractor/parser pair of each model) × numerals {7} (quick) or {7, 1,234, 0.5 in the '
         'culture\'s marks} (thorough); all main/fraction pairs of CurrencyFractionMapping with an English spelling × '
